@@ -11,7 +11,7 @@ for d in sorted(glob.glob("/verif/seeded/*/")):
     if os.path.exists(notes):
         txt = open(notes).read()
         k = ((n - 1) % 3 + 1) if m.get("round") != 2 else (n - 3 if n - 3 in (1, 2, 3) else n)
-        if m.get("round") in (2, 3):
+        if m.get("round") in (2, 3, 4, 5):
             k = None
             mm = re.search(r"section for patch (\d)", m.get("what_it_needs_to_manifest", ""))
             if mm: k = int(mm.group(1))
